@@ -66,11 +66,12 @@ fn new_bytecode<'gc>(
     let globals = module_globals
         .into_iter()
         .map(|index| {
+            // Precompiled bytecode may refer to a module which this vm has not loaded
             env.get_global(index.definition_name())
-                .expect("ICE: Global is missing from environment")
-                .value
+                .map(|global| global.value)
+                .ok_or_else(|| Error::UndefinedBinding(index.definition_name().into()))
         })
-        .collect::<Vec<_>>();
+        .collect::<Result<Vec<_>>>()?;
 
     // SAFETY No collection are done while we create these functions
     unsafe {
